@@ -439,7 +439,31 @@ def r9(ctx):
         l = op_local(c.args[1]) if len(c.args) > 1 else None
         cp = lib.closure_of_type(ds.local_ty(l)) if l is not None else None
         cb = lib.body(cp) if cp else None
-        if cb is not None and any('link_metadata' in place_fields(st['rv'].get('p') or [0, []]) for blk in cb.blocks for st in blk['stmts'] if st['rv'].get('p')):
+        if cb is not None and any('link_metadata' in place_fields(pl) for blk in cb.blocks for st in blk['stmts'] for pl in [st['rv'].get('p')] + [((o.get('c') or o.get('m')) if isinstance(o, dict) else None) for o in [st['rv'].get('op')] + list(st['rv'].get('ops') or [])] if pl):
             ok = True
+        if cb is not None:
+            for blk in cb.blocks:
+                t = blk['term']
+                if t['k'] == 'switch':
+                    pl = t['op'].get('c') or t['op'].get('m')
+                    if pl and 'link_metadata' in place_fields(pl):
+                        ok = True
+    # ... and a link that points to another link precedes it: the key counts the links to follow (read_link in a loop)
+    deep = False
+    for c in srt:
+        l = op_local(c.args[1]) if len(c.args) > 1 else None
+        cp = lib.closure_of_type(ds.local_ty(l)) if l is not None else None
+        cb = lib.body(cp) if cp else None
+        if cb is None:
+            continue
+        for k in cb.calls():
+            tb = lib.body(k.path) if k.f.get('local') else None
+            if tb is not None:
+                rl = tb.calls(r'^std::fs::read_link$')
+                if rl and any(rl[0].bb in tb.reachable(x) for x in tb.succs(rl[0].bb)):
+                    deep = True
+    ctx.check(deep, rule, ds.path + '|link-chains-outermost-first', (srt[0].where() if srt else ds.where()), 'links are ordered by the number of links to follow, the longest chain first',
+              'links are processed in report (path) order among themselves: for L2 -> L1 -> A `move` copies and removes L1 first, then the copy through L2 fails (ENOENT), L2 is left dangling and one file less '
+              'is processed than --dry-run announced')
     ctx.check(ok, rule, ds.path + '|links-first', (srt[0].where() if srt else ds.where()), 'to_drop is stably sorted so that symbolic links come before real files',
               'the dropped files are processed in report (path) order: a link whose target sorts before it is handled after the target has been removed / moved')
